@@ -436,6 +436,32 @@ fn run_step(cx: &mut Ctx, step: &Value) -> Result<R, Unsupported> {
                 _ => panic!("handle {h} is not a writer"),
             }
         }
+        "hwrite_cancel" => {
+            // poll write_all once, then drop the future (and report whether it had completed)
+            let h = step["h"].as_u64().unwrap() as usize;
+            let data = cx.data(&step["data"]);
+            match cx.handles.get_mut(h).and_then(|x| x.as_mut()).expect("live handle") {
+                #[cfg(any(feature = "rt-async-std", feature = "rt-tokio"))]
+                Handle::Writer(w) => {
+                    let ready = block_on(async {
+                        use std::future::Future;
+                        let mut fut = Box::pin(w.write_all(&data));
+                        let waker = futures::task::noop_waker();
+                        let mut tcx = std::task::Context::from_waker(&waker);
+                        let r = fut.as_mut().poll(&mut tcx).is_ready();
+                        drop(fut);
+                        r
+                    });
+                    Ok(Res::Bool(ready))
+                }
+                _ => return Err(Unsupported),
+            }
+        }
+        "quiesce" => {
+            // give detached blocking-pool jobs time to finish
+            std::thread::sleep(std::time::Duration::from_millis(150));
+            Ok(Res::Unit)
+        }
         "commit" => {
             let h = step["h"].as_u64().unwrap() as usize;
             match cx.handles.get_mut(h).and_then(|x| x.take()).expect("live handle") {
